@@ -1,10 +1,10 @@
 """C06 -- binary form round-trips; binary, hex and accessors describe the same parts."""
 from .. import sym
 from ..norm import n, P, C, V, ANY, match, find_all, binop
-from . import layout, common, cmpmodel, c04, c08
+from . import layout, common, cmpmodel, c04, c08, hexcodec
 
 ID = "C06"
-CONFIGS = {"quick": ["K0", "K1", "K9"], "thorough": ["K0", "K1", "K9", "K13"]}
+CONFIGS = {"quick": ["K0", "K1", "K6", "K9"], "thorough": ["K0", "K1", "K2", "K3", "K5", "K6", "K9", "K13"]}
 META = {
     "explanation": (
         "Static slice-window analysis (MIR paths + constant folding for the five variants).  Decided: store_into_bytes "
@@ -43,12 +43,36 @@ def run(ctx, FS):
         r = "R-06.3"
         ctx.rule(r, "hex writer/reader use the same field order as the binary form (reversed codec on header bytes)")
         c04.text_layout(ctx, r, F)
+        # the per-byte codecs behind the hex form: header bytes nibble-reversed, body bytes plain, in every table configuration
+        hexcodec.encoders(ctx, r, F)
+        hexcodec.decoders(ctx, r, F)
         r = "R-06.4"
         ctx.rule(r, "quartile(i) = (data[len-1-i/4] >> 2*(i%4)) & 3 with the documented index assertion i < NUM_BUCKETS", "N")
         quartile(ctx, r, F)
         r = "R-06.5"
         ctx.rule(r, "clear_checksum zeroes the entire checksum array and touches nothing else")
         c08.clear_checksum(ctx, r, F)
+        r = "R-06.6"
+        ctx.rule(r, "equality and copying of hashes are structural: PartialEq/Eq/Clone of the hash types and of their four parts are the compiler's derives "
+                    "(field-wise over integers and integer arrays), so `==` holds exactly when all parts are equal")
+        structural(ctx, r, F)
+
+
+STRUCTURAL = ["hash::inner::FuzzyHash<", "hash::FuzzyHash<", "hash::body::FuzzyHashBodyData<", "hash::checksum::FuzzyHashChecksumData<",
+              "hash::qratios::FuzzyHashQRatios", "hash::qratios::InnerQRatios", "length::FuzzyHashLengthEncoding"]
+
+
+def structural(ctx, r, F):
+    for prefix in STRUCTURAL:
+        for tr in ("core::cmp::PartialEq", "core::clone::Clone"):
+            ims = [im for im in F.impls if im.get("trait") == tr and F.tys(im["self_ty"]).startswith(prefix)]
+            ctx.instance(r)
+            # InnerQRatios is produced by the bitfield macro: its Clone is the macro's `derive`, still the built-in one
+            ctx.ob(r, (prefix.rstrip("<"), tr.rsplit("::", 1)[-1] + "-derived"), len(ims) == 1 and bool(ims[0].get("derived")) and bool(ims[0].get("builtin_derived")),
+                   "%s for %s is not the built-in derive (impls: %s)" % (tr, prefix, [(im.get("derived"), im.get("builtin_derived")) for im in ims]), cfg=F.key)
+    # the four parts are the only fields of the inner hash
+    hf = common.hash_fields(F)
+    ctx.ob(r, ("hash::inner::FuzzyHash", "four-fields"), bool(hf) and sorted(hf) == ["body", "checksum", "lvalue", "qratios"], "fields of the inner hash: %s" % (sorted(hf) if hf else hf), cfg=F.key)
 
 
 def binary_layout(ctx, r, F, envs):
